@@ -22,7 +22,7 @@ for meta in sorted(glob.glob(os.path.join(root, "seeded", "*", "meta.json"))):
     hist = m.get("detection", "")
     first = ("not decided" if m.get("expected") == "analysis-error" else
              "missed at first" if re.search(r"initially (MISSED|exit 2)|[Mm]issed at first|missed by C\d\d at first|first ended in an analysis error|"
-                                            r"first fired only because|first fired as", hist) else "caught as built")
+                                            r"first fired only because|first fired as|missed when found", hist) else "caught as built")
     if first == "missed at first":
         miss0 += 1
     if first == "not decided":
